@@ -3,6 +3,7 @@
 //	groups        parent driver: generates sequential histories and gate-driven schedules for the three
 //	              group controllers, has them executed by child processes (a crash of the implementation
 //	              is a possible outcome), writes the Coq case file and the stats.
+//	sysgroups     the same through a whole in-process frps with real in-process frpc clients.
 //	groups-child  executes the cases of a JSON file from a start index, one RESULT line per case.
 package main
 
@@ -11,6 +12,7 @@ import "verifharness/hx"
 var drivers = map[string]hx.DriverFn{
 	"groups":       groupsDriver,
 	"groups-child": groupsChild,
+	"sysgroups":    sysGroups,
 }
 
 func main() { hx.Main(drivers) }
